@@ -119,14 +119,20 @@ fn build_specification(guard: &StringGuard) -> Result<Option<Specification>, syn
             let has_trim = relevant_sanitizers
                 .iter()
                 .any(|s| matches!(s, RelevantSanitizer::Trim));
+            // `not_empty` counts as `len_char_min = 1`: when several lower limits are present the
+            // generated length has to respect the largest of them.
             let min_len = relevant_validators
                 .iter()
-                .find_map(|v| {
+                .filter_map(|v| {
                     if let RelevantValidator::LenCharMin(value) = v {
                         Some(value.clone())
                     } else {
                         None
                     }
+                })
+                .reduce(|a, b| match (a, b) {
+                    (ValueOrExpr::Value(a), ValueOrExpr::Value(b)) => ValueOrExpr::Value(a.max(b)),
+                    (a, b) => ValueOrExpr::Expr(syn::parse_quote!(::core::cmp::max(#a, #b))),
                 })
                 .unwrap_or_else(|| ValueOrExpr::Value(0));
             let max_len = relevant_validators
